@@ -152,9 +152,9 @@ def product_identity_rule(ctx):
         r.ok("Isotropic: 2-D plane-stress C == Schur complement of the 3-D C over (zz,yz,xz); plane-strain C == in-plane block, identically in (E, v)")
 
 
-def reduction_rule(ctx):
+def reduction_rule(ctx, rid="R11.2"):
     repo = ctx.repo
-    r = ctx.rule("R11.2", "_Apply_basis_transformation: plane stress takes the in-plane block of the compliance and inverts it, plane strain takes the block of the stiffness; index set = Kelvin in-plane set [0,1,5]", min_instances=2)
+    r = ctx.rule(rid, "_Apply_basis_transformation: plane stress takes the in-plane block of the compliance and inverts it, plane strain takes the block of the stiffness; index set = Kelvin in-plane set [0,1,5]", min_instances=2)
     ci = repo.cls(f"{LAWS}._Elastic")
     f = ci.methods["_Apply_basis_transformation"]
     sM_in = XArray((6, 6), [Poly.var(f"ms{i}{j}") for i in range(6) for j in range(6)])
@@ -167,7 +167,8 @@ def reduction_rule(ctx):
             return Opaque("P")
         if isinstance(fn, FuncInfo) and fn.name == "Apply_Pmat":
             if not kwargs.get("toGlobal", True if len(args) < 3 else args[2]):
-                raise AnalysisError("Apply_Pmat called with toGlobal=False in _Apply_basis_transformation")
+                # rotated the other way (P^T M P): a different tensor, which the comparisons below do not accept
+                return XArray((6, 6), [Poly.var(f"{'St' if args[1] is sM_in else 'Ct'}{i}{j}") for i in range(6) for j in range(6)])
             return S if args[1] is sM_in else (C if args[1] is cM_in else Opaque("?"))
         if isinstance(fn, _NpAttr) and fn.path == "linalg.inv":
             return InvOf(args[0])
@@ -195,7 +196,7 @@ def reduction_rule(ctx):
         if ok:
             r.ok(f"planeStress={ps}: in-plane block [0,1,5] of the rotated {lab}, the other matrix is its inverse")
         else:
-            r.fail(f.qualname, f"planeStress={ps}", f.file, f.lineno, "_Apply_basis_transformation", f"planeStress={ps}: the 2-D law is not (block [0,1,5] of the rotated {lab}, inverse of that block)")
+            r.fail(f.qualname, f"planeStress={ps}", f.file, f.lineno, "_Apply_basis_transformation", f"planeStress={ps}: the 2-D law is not (block [0,1,5] of the material -> global rotated {lab} P M P^T, inverse of that block): stiffness and compliance must be turned by the SAME rotation")
     # 3D: untouched
     r.instance(fn=f.qualname)
     I = Interp(repo)
@@ -204,7 +205,7 @@ def reduction_rule(ctx):
     if c is C and s is S:
         r.ok("dim 3: (P C P^T, P S P^T) returned unchanged")
     else:
-        r.fail(f.qualname, "dim3", f.file, f.lineno, "_Apply_basis_transformation", "dim 3 does not return the rotated stiffness and compliance")
+        r.fail(f.qualname, "dim3", f.file, f.lineno, "_Apply_basis_transformation", "dim 3 does not return (P C P^T, P S P^T): stiffness and compliance are not turned by the same material -> global rotation (S is no longer the inverse of C for rotated axes)")
 
 
 def flag_rule(ctx):
@@ -408,6 +409,7 @@ def run(ctx):
     rotation_direction_rule(ctx)
     ctx.attempt(axis_guard_rule, ctx)
     ctx.attempt(notation_rotation_rule, ctx)
+    ctx.attempt(integer_stiffness_rule, ctx)
     ctx.attempt(integer_parameter_rule, ctx)
     ctx.attempt(heterogeneity_detection_rule, ctx)
     from ..shared import notify_last_rule as _notify_last_rule
@@ -419,12 +421,12 @@ def run(ctx):
     c10.pmat_rules(ctx)
 
 
-def rotation_direction_rule(ctx):
+def rotation_direction_rule(ctx, rid="R11.6"):
     """R11.6: the laws are given in the material axes and handed out in the global frame: every Apply_Pmat call of the
     law module rotates material -> global (P M P^T, toGlobal=True, explicitly or by default). The siblings
     (_Apply_basis_transformation for transversely isotropic / orthotropic, Anisotropic._Behavior) must agree."""
     repo = ctx.repo
-    r = ctx.rule("R11.6", "rotation direction: every Apply_Pmat call in the elastic laws is material -> global (toGlobal True, explicit or default)", min_instances=3)
+    r = ctx.rule(rid, "rotation direction: every Apply_Pmat call in the elastic laws is material -> global (toGlobal True, explicit or default)", min_instances=3)
     mod = repo.module(LAWS)
     fdef = repo.func("EasyFEA.Models._utils.Apply_Pmat")
     a = fdef.node.args
@@ -652,3 +654,66 @@ def heterogeneity_detection_rule(ctx):
             r.fail(f.qualname, "dtype-test", f.file, dt[0].lineno, f"{ci.name}._Behavior", f"`{norm_text(dt[0])[:70]}` reads the parameters {sorted(tested)} while the law matrices also read {missing}: a field given for {missing[0]} alone is not detected (the matrices are built with dtype=float from ragged entries)")
         else:
             r.ok(f"{ci.name}._Behavior: the dtype test reads every parameter of the matrices ({sorted(used)})")
+
+
+def integer_stiffness_rule(ctx):
+    """R11.12: 'supplying the same material in Voigt or Kelvin-Mandel notation ... yields the same law' -- also when the
+    matrix is typed with INTEGERS (a stiffness table in GPa).  Anisotropic._Behavior is interpreted, with the integer
+    array model of the interpreter (storing a definite non-integer into an integer-kind buffer is numpy's silent
+    truncation), on an integer 2-D Voigt matrix with coupling terms C16, C26: the law must be the one the same numbers
+    typed as floats give (kappa_i kappa_j C_ij), for the homogeneous matrix and for a per-element field of them."""
+    from ..xarray import XTruncation
+
+    repo = ctx.repo
+    r = ctx.rule("R11.12", "Anisotropic._Behavior on an integer-typed Voigt stiffness (2-D, coupling terms) gives the law of the same numbers typed as floats: no buffer inherits the integer type", min_instances=2)
+    ci = repo.cls(f"{LAWS}.Anisotropic")
+    f = ci.methods["_Behavior"]
+    s2 = MQ.sqrt(2)
+
+    def hook(fn, args, kwargs):
+        if isinstance(fn, FuncInfo) and fn.name == "Get_Pmat":
+            return Opaque("P")
+        if isinstance(fn, FuncInfo) and fn.name == "Apply_Pmat":
+            return args[1]
+        if isinstance(fn, _NpAttr) and fn.path in ("linalg.norm", "max"):
+            return Junk()
+        return NotImplemented
+
+    base = [[10, 4, 5], [4, 12, 7], [5, 7, 6]]
+    cases = {"homogeneous (3, 3)": XArray((3, 3), [v for row in base for v in row], "i"), "per-element (2, 3, 3)": XArray((2, 3, 3), [v + 2 * e for e in range(2) for row in base for v in row], "i")}
+    kap = [Q(1), Q(1), s2]
+    for label, Cin in cases.items():
+        r.instance(fn=f.qualname)
+        I = Interp(repo)
+        I.call_hook = hook
+        obj = XObj(ci, {"dim": 2, "_Anisotropic__axis1": Opaque("a1"), "_Anisotropic__axis2": Opaque("a2")})
+        try:
+            out = XArray.from_nested(I.call_function(f, [Cin, True], self_obj=obj))
+        except (XTruncation, Uninterpretable) as e:
+            if "integer type" in str(e):
+                r.fail(f.qualname, f"integer-voigt:{label}", f.file, f.lineno, "Anisotropic._Behavior", f"integer Voigt matrix, {label}: {str(e).split(': ', 1)[-1] if ': ' in str(e) else e}: the sqrt(2)-scaled coupling terms are truncated (7.07 -> 7, 9.90 -> 9) and the law differs from the one of the same matrix typed as floats")
+                continue
+            raise
+        bad = None
+        lead = Cin.shape[:-2]
+        for e in range(lead[0] if lead else 1):
+            for i in range(3):
+                for j in range(3):
+                    src = Cin[(e, i, j)] if lead else Cin[i, j]
+                    got = out[(e, i, j)] if lead else out[i, j]
+                    want = MQ.of(Q(src)) * kap[i] * kap[j]
+                    if bad is None and not (MQ.of(exact_num(got)) - want).is_zero():
+                        bad = f"entry [{i},{j}]{f' of element {e}' if lead else ''} is {got}, expected kappa_i kappa_j C_ij = {want}"
+        if bad:
+            r.fail(f.qualname, f"integer-voigt:{label}", f.file, f.lineno, "Anisotropic._Behavior", f"integer Voigt matrix, {label}: {bad}")
+        else:
+            r.ok(f"integer Voigt matrix, {label}: kappa_i kappa_j C_ij exactly")
+
+
+def exact_num(x):
+    from ..xeval import exact
+
+    x = exact(x)
+    if isinstance(x, Poly) and x.is_const():
+        x = x.const_value()
+    return x
